@@ -19,7 +19,7 @@ PROP = dict(
     level_note=("Trusted: Coq kernel+VM; differential tie on sampled scenarios; the scripted client honours cancellation at once (a client that "
                 "reacts late delays the return by its own reaction time); deadlines never coincide with another timer (Go picks either branch then); "
                 "struct-tag parsing itself is C20's."),
-    rule=("random NewStore scenarios (1-7 declared names with duplicates, both client kinds, cache absent/empty/undecodable/partial/complete/"
+    rule=("random NewStore scenarios (1-7 declared names with duplicates, both client kinds, cache absent/empty/syntax error/type error after k valid entries/partial/complete/"
           "invalid, per-name failure scripts with latencies, deadlines at half-millisecond instants, misconfigurations); one case = one call; "
           "non-trivial if the service was contacted or a cache document was supplied; distinct by input"),
     explain=("setec.NewStore (outcome, requests with virtual instants, instant of return, cache writes, probe poll or values served) differs from the "
